@@ -18,7 +18,9 @@
 //	    process on one runtime and directory (xmod.go): every final name must hold the entry its
 //	    module produces when compiled alone,
 //	(7) the writer goroutine dies inside Add (panic / runtime.Goexit / read error after k bytes of the
-//	    content; inside every step under CompileModule) while the process lives on (die.go).
+//	    content; inside every step under CompileModule) while the process lives on (die.go),
+//	(8) all interleavings of two concurrent CompileModule calls (same key on two runtimes / on one
+//	    runtime; two different keys) switching at every file-cache operation (adders.go).
 //
 // After every state a recovery runs in a supervised child: fresh cache object + fresh runtime on
 // that directory, CompileModule, instantiate, call every export, compare with the uncached
@@ -34,12 +36,14 @@ import (
 	"encoding/json"
 	"fmt"
 	"os"
+	"os/signal"
 	"path/filepath"
 	"regexp"
 	"runtime"
 	"sort"
 	"strings"
 	"sync"
+	"syscall"
 	"time"
 
 	"github.com/tetratelabs/wazero"
@@ -493,21 +497,44 @@ func recoverAndJudge(phase, class string, mi *modInfo, top, sub string, alsoOK [
 // ---------------------------------------------------------------- step-log analysis (torn writes)
 
 type tornVariant struct {
-	Path string
-	L    int
+	Ref string // structural reference, see unsyncedFile
+	L   int
 }
 
-// unsynced replays log[0:k) on a model of (name -> inode{synced,cur}) and returns, for every
-// name that has un-synced data at that point, the span [synced, cur).
-func unsynced(initial map[string]int, log []vos.Step, k int) map[string][2]int {
-	type inode struct{ synced, cur int }
+// unsyncedFile is a file that holds un-synced data at some point of a step log. Ref identifies it
+// STRUCTURALLY — "created#n" = the file made by the n-th create step of the log, "initial:<name>" = a
+// file that was there before — so that a case can name it independently of the staging-file name,
+// which may differ between the enumerating process and the child (random / pid-derived names).
+type unsyncedFile struct {
+	Ref  string
+	Name string // name it is linked under at that point, in THIS log
+	Span [2]int // [synced, cur)
+}
+
+// unsynced replays log[0:k) on a model of (name -> inode{synced,cur}) and returns every linked file
+// that has un-synced data at that point, in creation order.
+func unsynced(initial map[string]int, log []vos.Step, k int) []unsyncedFile {
+	type inode struct {
+		synced, cur int
+		ref         string
+		order       int
+	}
 	names := map[string]*inode{}
-	for n, l := range initial {
-		names[n] = &inode{l, l}
+	var inits []string
+	for n := range initial {
+		inits = append(inits, n)
+	}
+	sort.Strings(inits)
+	for i, n := range inits {
+		names[n] = &inode{synced: initial[n], cur: initial[n], ref: "initial:" + n, order: i - len(inits)}
 	}
 	handles := map[int]*inode{}
+	creates := 0
 	for i := 0; i < k && i < len(log); i++ {
 		st := log[i]
+		if st.Op == "create" && !st.Skipped && st.Err == "" {
+			creates++
+		}
 		if st.Skipped || st.Err != "" {
 			if !(st.Faulted && st.Op == "write") {
 				continue
@@ -517,7 +544,7 @@ func unsynced(initial map[string]int, log []vos.Step, k int) map[string][2]int {
 		case "create":
 			ino := names[st.Path]
 			if ino == nil {
-				ino = &inode{}
+				ino = &inode{ref: fmt.Sprintf("created#%d", creates), order: creates}
 				names[st.Path] = ino
 			} else {
 				ino.cur, ino.synced = 0, 0
@@ -553,31 +580,28 @@ func unsynced(initial map[string]int, log []vos.Step, k int) map[string][2]int {
 			delete(names, st.Path)
 		}
 	}
-	out := map[string][2]int{}
+	var out []unsyncedFile
+	var order []int
 	for n, ino := range names {
 		if ino.cur > ino.synced {
-			out[n] = [2]int{ino.synced, ino.cur}
+			out = append(out, unsyncedFile{ino.ref, n, [2]int{ino.synced, ino.cur}})
+			order = append(order, ino.order)
 		}
 	}
+	sort.Slice(out, func(i, j int) bool { return out[i].Ref < out[j].Ref })
 	return out
 }
 
 func tornVariants(mi *modInfo, initial map[string]int, log []vos.Step, k int, allMax int) []tornVariant {
-	un := unsynced(initial, log, k)
-	var names []string
-	for n := range un {
-		names = append(names, n)
-	}
-	sort.Strings(names)
 	var out []tornVariant
-	for _, n := range names {
-		sp := un[n]
+	for _, u := range unsynced(initial, log, k) {
+		sp := u.Span
 		var lay *layout
 		if sp[0] == 0 && sp[1] == len(mi.Entry) {
 			lay = mi.layout()
 		}
 		for _, l := range lengthGrid(sp[0], sp[1], lay, allMax, false) {
-			out = append(out, tornVariant{n, l})
+			out = append(out, tornVariant{u.Ref, l})
 		}
 	}
 	return out
@@ -602,7 +626,7 @@ type Case struct {
 	Mod   int    `json:"mod"`
 	Flow  string `json:"flow,omitempty"`
 	K     int    `json:"k,omitempty"`
-	Torn  string `json:"torn,omitempty"`
+	Torn  string `json:"torn,omitempty"` // structural reference of the torn file ("created#n" / "initial:<name>")
 	L     int    `json:"l,omitempty"`
 	Ver   string `json:"ver,omitempty"`
 	Body  string `json:"body,omitempty"`
@@ -705,7 +729,7 @@ func genCases(p *Plan) []Case {
 			for _, k := range crashPoints(fl.log) {
 				cs = append(cs, Case{Kind: "crash", Mod: mi, Flow: fl.name, K: k})
 				for _, tv := range tornVariants(m, fl.init, fl.log, k, fl.allMax) {
-					cs = append(cs, Case{Kind: "crash", Mod: mi, Flow: fl.name, K: k, Torn: tv.Path, L: tv.L})
+					cs = append(cs, Case{Kind: "crash", Mod: mi, Flow: fl.name, K: k, Torn: tv.Ref, L: tv.L})
 				}
 			}
 		}
@@ -778,6 +802,8 @@ func genCases(p *Plan) []Case {
 	// (6) different modules compiled concurrently in one process against one directory; first in the
 	// plan so that this verdict is reached before the stop-after-20-violations rule can cut the run
 	cs = append(xmodCases(p), cs...)
+	// (8) two concurrent adders (CompileModule level, all file-cache operations are switch points); also first
+	cs = append(addersCases(p), cs...)
 	// (7) the writer goroutine dies (panic / Goexit / read error) inside Add, the process lives on
 	cs = append(cs, dieCases(p)...)
 	return cs
@@ -860,7 +886,21 @@ func runCase(p *Plan, c Case) caseResult {
 		class := crashClass(r.Ops, c.K)
 		if c.Torn != "" {
 			class += "+torn"
-			p := filepath.Join(sub, c.Torn)
+			// resolve the structural reference against THIS process's log (staging names may differ)
+			init := map[string]int{}
+			for n, b := range files {
+				init[n] = len(b)
+			}
+			name := ""
+			for _, u := range unsynced(init, r.Ops, c.K) {
+				if u.Ref == c.Torn {
+					name = u.Name
+				}
+			}
+			if name == "" {
+				fw.Fatalf("crash case %+v: no file %s with un-synced data in this process's log", c, c.Torn)
+			}
+			p := filepath.Join(sub, name)
 			fi, err := os.Stat(p)
 			if err != nil || int(fi.Size()) <= c.L {
 				fw.Fatalf("crash case %+v: torn file missing or too short (%v)", c, err)
@@ -909,6 +949,8 @@ func runCase(p *Plan, c Case) caseResult {
 		return runXmod(p, c)
 	case "die":
 		return runDie(mi, c)
+	case "adders":
+		return runAdders(p, c)
 	}
 	fw.Fatalf("unknown case kind %q", c.Kind)
 	return caseResult{}
@@ -1237,6 +1279,12 @@ func main() {
 		bk[k] = v
 	}
 	os.RemoveAll(scratchRoot)
+	if os.Getenv("VERIF_C13_VERBOSE") != "" { // patched runs keep no evidence file: print the counters
+		b1, _ := json.Marshal(extra)
+		b2, _ := json.Marshal(bk)
+		b3, _ := json.Marshal(outcomes.Map())
+		fmt.Printf("counters %s\nby-kind %s\noutcomes %s\n", b1, b2, b3)
+	}
 	run.Finish(fw.Coverage{
 		Evaluations: evals + inproc, DistinctNontriv: int64(len(distinct)),
 		Rule:    "one evaluation = one recovery (fresh cache object + fresh runtime + CompileModule + all exports called) on one materialised directory state, or one complete interleaving for the reader configurations; distinct non-trivial = distinct (module, crash point, torn file, torn length | truncation length | zero-tail cut | version variant x body | fault step x errno | interleaving shard) tuples, controls and determinism repetitions excluded",
@@ -1248,6 +1296,7 @@ func main() {
 			"fault_errnos":               []string{"ENOSPC", "EIO", "ENOSPC after a short write (write steps)"},
 			"interleavings":              "w2-states: 2 writers x all merges of their mutating steps, full recovery in every intermediate state; w2-reader: 2 writers + reader (open, read as separate steps); w3-coarse: 3 writers, points create/write/rename; thorough adds w3-full and w3-reader-coarse",
 			"writer_goroutine_deaths":    "flow add: reader of a directly driven fileCache.Add panics / Goexits / returns (n>0, err) after k in {0,1,len/2,len-1} bytes (<= 4 KiB reads), every module incl. a 97 KiB entry; flow compile: panic / Goexit inside every step of the miss flow (3 copy chunks) under CompileModule",
+			"concurrent_adders":          "a2-same-key (two runtimes + two CompilationCache objects over one directory, same module), a2-same-key-one-rt (one runtime, two goroutines), a2-different-keys (control): ALL interleavings, every file-cache operation is a switch point, no preemption bound; fresh-process recovery on every distinct intermediate directory; thorough adds torn crash states at every intermediate state",
 			"cross_module_interleavings": "x2: two threads in one process/runtime each CompileModule of a DIFFERENT module (pairs small+big, big+small, dwarf+plain) on one cache directory, all merges of their points open/create/3 write chunks/rename, GOMAXPROCS(1); thorough adds x3-coarse (three modules, points open/create/write/rename)"},
 		Extra: map[string]any{"prep_wall_s": prepWall, "in_process_recompilations": inproc, "free_running_concurrent_compilations_compared": concN, "other_process_compilations": detProc, "interleaving_counters": extra, "deterministic_compilation_verifier_build": dv},
 	}, []string{
@@ -1295,7 +1344,7 @@ func caseClass(c Case) string {
 		return c.Ver + "-" + c.Body
 	case "fault":
 		return fmt.Sprintf("%s-%s", c.Flow, c.Errno)
-	case "conc", "xmod":
+	case "conc", "xmod", "adders":
 		return c.Conf
 	case "die":
 		return c.Flow + "-" + c.Errno
@@ -1312,6 +1361,15 @@ func setupScratch() {
 	if fi, err := os.Stat("/dev/shm"); err == nil && fi.IsDir() {
 		base = "/dev/shm" // tmpfs: the durability model is the harness's, real fsync latency is irrelevant
 	}
+	// hygiene: a run that was killed from outside (e.g. an outer timeout that also removes the binary)
+	// cannot clean up; scratch older than 2 h (the thorough budget is 45 min) is certainly stale
+	if stale, err := filepath.Glob(filepath.Join(map[bool]string{true: os.TempDir(), false: base}[base == ""], "verif-c13-*")); err == nil {
+		for _, sd := range stale {
+			if fi, err := os.Stat(sd); err == nil && time.Since(fi.ModTime()) > 2*time.Hour {
+				os.RemoveAll(sd)
+			}
+		}
+	}
 	d, err := os.MkdirTemp(base, "verif-c13-")
 	if err != nil {
 		d, err = os.MkdirTemp("", "verif-c13-")
@@ -1320,6 +1378,14 @@ func setupScratch() {
 		}
 	}
 	scratchRoot = d
+	// an interrupted run (SIGINT/SIGTERM, e.g. an outer timeout) must not leave its scratch in /dev/shm
+	sig := make(chan os.Signal, 1)
+	signal.Notify(sig, syscall.SIGINT, syscall.SIGTERM)
+	go func() {
+		<-sig
+		os.RemoveAll(d)
+		os.Exit(2)
+	}()
 }
 
 func writePlan(path string, p *Plan) {
